@@ -378,6 +378,7 @@ type Obs struct {
 	Elapsed    int64       `json:"elapsed_ms"`
 	Served     []*uint64   `json:"served"`
 	Calls      []call      `json:"calls"`
+	Stuck      bool        `json:"stuck,omitempty"` // goroutines of the call were left blocked for good
 	Note       string      `json:"note,omitempty"`
 }
 
@@ -393,13 +394,46 @@ func relayAddress(i int, kind string) string {
 	return fmt.Sprintf("http://relay-%d.c09.invalid:18550", i)
 }
 
-func runCase(t *testing.T, in Input) Obs {
-	var obs Obs
+func runCase(t *testing.T, in Input) (obs Obs) {
 	lg := &callLog{}
 	level := zerolog.Disabled
 	if in.Trace {
 		level = zerolog.TraceLevel
 	}
+	// Goroutines that the call leaves blocked for good (say, relay goroutines sending on a channel
+	// nobody reads any more) make synctest.Test panic with "deadlock" once everything else has
+	// finished: that is reported as an observation of the case, not as the end of the test binary.
+	defer func() {
+		if r := recover(); r != nil {
+			msg := strings.SplitN(fmt.Sprint(r), "\n", 2)[0]
+			if !strings.Contains(msg, "deadlock") {
+				panic(r)
+			}
+			obs.Stuck = true
+			obs.Note += "synctest: " + msg + "; "
+			finishCalls(&obs, lg)
+		}
+	}()
+	runBubble(t, in, &obs, lg, level)
+	finishCalls(&obs, lg)
+	return obs
+}
+
+func finishCalls(obs *Obs, lg *callLog) {
+	lg.mu.Lock()
+	obs.Calls = append(obs.Calls[:0], lg.calls...)
+	lg.mu.Unlock()
+	sort.SliceStable(obs.Calls, func(i, j int) bool {
+		if obs.Calls[i].T != obs.Calls[j].T {
+			return obs.Calls[i].T < obs.Calls[j].T
+		}
+		return obs.Calls[i].Relay < obs.Calls[j].Relay
+	})
+}
+
+func runBubble(t *testing.T, in Input, obsp *Obs, lg *callLog, level zerolog.Level) {
+	var obs Obs
+	defer func() { *obsp = obs }()
 	synctest.Test(t, func(t *testing.T) {
 		ctx, cancel := context.WithCancel(context.Background())
 		defer cancel()
@@ -569,16 +603,6 @@ func runCase(t *testing.T, in Input) Obs {
 			sort.Slice(obs.Parts, func(i, j int) bool { return obs.Parts[i].Relay < obs.Parts[j].Relay })
 		}
 	})
-	lg.mu.Lock()
-	obs.Calls = append(obs.Calls, lg.calls...)
-	lg.mu.Unlock()
-	sort.SliceStable(obs.Calls, func(i, j int) bool {
-		if obs.Calls[i].T != obs.Calls[j].T {
-			return obs.Calls[i].T < obs.Calls[j].T
-		}
-		return obs.Calls[i].Relay < obs.Calls[j].Relay
-	})
-	return obs
 }
 
 // ---------------------------------------------------------------------------------------------
@@ -668,7 +692,7 @@ func term(id uint64, in Input, obs Obs) string {
 	return Record("c_id", N(id), "c_strat", strat, "c_mode", mode, "c_cfgs", List(cfgs), "c_relays", List(relays),
 		"c_panic", Bool(obs.Panic), "c_has_results", Bool(obs.HasResults), "c_win", win,
 		"c_providers", nList(obs.Providers), "c_allp", nList(obs.AllP), "c_parts", List(parts),
-		"c_elapsed", Z(obs.Elapsed), "c_served", List(served), "c_calls", List(calls), "c_dropped", List(dropped))
+		"c_elapsed", Z(obs.Elapsed), "c_served", List(served), "c_calls", List(calls), "c_dropped", List(dropped), "c_stuck", Bool(obs.Stuck))
 }
 
 // ---------------------------------------------------------------------------------------------
@@ -1163,6 +1187,46 @@ func gen(r *Rand, tier string) Input {
 			rel.Script[k].Bid = b
 		}
 	}
+	// slow but in time: one relay uses up most of the time there is (a long latency, a long grace
+	// period, or a slow later call of the deadline strategy) and still has its answer ready before
+	// the cut-off, with the most valuable bid of the auction; it honours the request's context like
+	// the real HTTP client, so a request that vouch gives up early is lost
+	if nRelays > 0 && m > 6 && r.Chance(24, 100) {
+		i := r.Intn(nRelays)
+		rel := &in.Relays[i]
+		if len(rel.Script) > 0 {
+			residue := (rel.Grace + rel.Script[0].Lat) % 16
+			b := &BidIn{Value: val(base * 5), Builder: uint64(r.Range(1, nBuilders)), Header: headers[1], Signer: effKey(rel)}
+			if b.Signer == 0 {
+				b.Signer = 1
+			}
+			rel.IgnoreCtx = false
+			k := 0
+			n := int64(r.Range(int(m)/2+1, int(m)-1)) // answer ready at 16 n + residue, after half of the time
+			switch v := r.Intn(10); {
+			case v < 4: // long latency
+				rel.Grace = 16 * int64(pick(r, 0, 0, 1, 2))
+				rel.Script[0].Lat = 16*n + residue - rel.Grace
+				in.Tags = append(in.Tags, "slow-in-time:latency")
+			case v < 7: // long grace period
+				rel.Grace = 16 * int64(r.Range(int(m)/4, int(n)-1))
+				rel.Script[0].Lat = 16*n + residue - rel.Grace
+				in.Tags = append(in.Tags, "slow-in-time:grace")
+			default: // deadline: a later call is slow (in time or not, depending on the calls before)
+				if in.Strategy != "best" && len(rel.Script) > 1 {
+					k = r.Range(1, len(rel.Script)-1)
+					rel.Script[k].Lat = 16 * int64(r.Range(int(m)/3, int(m)))
+					in.Tags = append(in.Tags, "slow-in-time:later-call")
+				} else {
+					rel.Grace = 0
+					rel.Script[0].Lat = 16*n + residue
+					in.Tags = append(in.Tags, "slow-in-time:latency")
+				}
+			}
+			rel.Script[k].Kind = "bid"
+			rel.Script[k].Bid = b
+		}
+	}
 	return in
 }
 
@@ -1226,6 +1290,8 @@ func TestC09(t *testing.T) {
 		col.Count("strategy:" + in.Strategy)
 		col.Count("mode:" + in.Mode)
 		switch {
+		case obs.Stuck:
+			col.Count("outcome:goroutines-left-blocked")
 		case obs.Panic:
 			col.Count("outcome:panic")
 		case obs.Win != nil || (len(obs.Served) > 0 && obs.Served[0] != nil):
